@@ -1,7 +1,7 @@
 (* C13 correspondence: what the harness observed of the real mutateAccounts /
    mutatePaths (on apkfs.NewMemFS() and tarfs.New()), compared with the model
    and judged by the validators of Spec/AccountsSpec.v and Spec/PathMutSpec.v. *)
-From Apko Require Export Base.Prelude Model.C13Fs Model.Accounts Generated.C13Consts Spec.AccountsSpec.
+From Apko Require Export Base.Prelude Model.C13Fs Model.Accounts Model.PathMut Generated.C13Consts Spec.AccountsSpec Spec.PathMutSpec.
 Open Scope string_scope. Open Scope list_scope.
 
 (* ---- building the initial tree: the same calls on both sides -------------- *)
@@ -159,3 +159,91 @@ Definition acc_mismatches (c : acc_case) : list string :=
   end.
 
 Definition check_acc (c : acc_case) : list string := acc_violations c ++ acc_mismatches c.
+
+(* ---- path mutations ----------------------------------------------------------
+   The harness runs the real mutatePaths on every prefix of the sequence (each
+   on a freshly built tree) and observes the path of the prefix's last mutation;
+   the whole sequence's tree and layer are observed at the end. *)
+Record path_case := {
+  p_backend : nat;
+  p_setup : list setup_op;
+  p_muts : list mutation;
+  po_ok : nat;                       (* number of prefixes (1..) on which mutatePaths returned nil *)
+  po_steps : list step_obs;          (* one per successful prefix *)
+  po_dump : list dentry;             (* after the whole sequence, when it succeeded *)
+  po_layer : list dentry
+}.
+
+Definition strip_path (d : dentry) : dentry :=
+  mkDentry "" (d_kind d) (d_perm d) (d_uid d) (d_gid d) (d_target d) (d_size d).
+
+Definition model_step (maxl : nat) (f : fs) (m : mutation) : step_obs :=
+  let p := path_of (m_path m) in
+  mkStep (match direct maxl f p with FOk n => Some (dentry_of "" n) | _ => None end)
+         (match stat maxl f p with FOk n => Some (sinfo_of n) | _ => None end)
+         (match stat maxl f p with FOk n => strlen (ndata n) | _ => 0%N end)
+         (match stat maxl f (path_of (m_source m)) with FOk n => Some (sinfo_of n) | _ => None end)
+         (match gn maxl f p with FOk i => dump_from (S (List.length f)) f i "" | _ => [] end).
+
+Definition step_same (a b : step_obs) : bool :=
+  option_eqb dentry_eqb (so_direct a) (so_direct b) && option_eqb sinfo_eqb (so_stat a) (so_stat b) &&
+  N.eqb (so_size a) (so_size b) && option_eqb sinfo_eqb (so_src a) (so_src b) &&
+  dump_same (so_desc a) (so_desc b).
+
+Definition special_bits_ok (m : mutation) : bool := (m_perm m <? 4096)%N.
+
+(* prefixes 1..n of a list *)
+Fixpoint prefixes_from {A} (acc l : list A) : list (list A) :=
+  match l with [] => [] | x :: t => (acc ++ [x]) :: prefixes_from (acc ++ [x]) t end.
+
+Definition last_mut (ms : list mutation) : option mutation :=
+  match rev ms with m :: _ => Some m | [] => None end.
+
+Definition path_violations (c : path_case) : list string :=
+  List.concat (List.map (fun pm : list mutation * step_obs =>
+      match last_mut (fst pm) with Some m => realised_tags m (snd pm) | None => [] end)
+    (zip3 (prefixes_from [] (p_muts c)) (po_steps c))) ++
+  (* layer: the last mutation of a fully successful sequence, when the tree
+     shows its path under its own name and the entry is not a symlink *)
+  (if Nat.eqb (po_ok c) (List.length (p_muts c)) then
+     match last_mut (p_muts c) with
+     | Some m =>
+         let nm := rel_name (m_path m) in
+         match find_dentry nm (po_dump c), find_dentry nm (po_layer c) with
+         | Some d, Some l =>
+             if kind_eqb (d_kind d) KSym then
+               (if String.eqb (m_type m) "symlink"
+                then tag_if (negb (N.eqb (d_uid l) (m_uid m) && N.eqb (d_gid l) (m_gid m))) "viol:symlink-owner-not-applied"
+                else [])
+             else layer_tags m l
+         | Some _, None => ["viol:layer-entry-missing"]
+         | None, _ => []
+         end
+     | None => []
+     end
+   else []).
+
+Definition path_mismatches (c : path_case) : list string :=
+  let maxl := backend_maxl (p_backend c) in
+  match run_setup maxl (empty_fs root_perm) (p_setup c) with
+  | FOk f0 =>
+      let results := List.map (fun ms => (ms, mutate_paths maxl f0 ms)) (prefixes_from [] (p_muts c)) in
+      let ok := List.length (filter (fun r => match snd r with FOk _ => true | _ => false end) results) in
+      tag_if (existsb (fun r => match snd r with FFuel => true | _ => false end) results) "mismatch:model-out-of-fuel" ++
+      tag_if (negb (Nat.eqb ok (po_ok c))) "mismatch:successful-prefixes" ++
+      tag_if (negb (list_eqb step_same
+                (List.concat (List.map (fun r : list mutation * fres fs =>
+                   match snd r, last_mut (fst r) with
+                   | FOk f, Some m => [model_step maxl f m]
+                   | _, _ => [] end) results))
+                (po_steps c))) "mismatch:step-observation" ++
+      match mutate_paths maxl f0 (p_muts c) with
+      | FOk f1 =>
+          tag_if (negb (dump_same (dump f1) (po_dump c))) "mismatch:tree" ++
+          tag_if (negb (dump_same (layer_of f1) (po_layer c))) "mismatch:layer"
+      | _ => []
+      end
+  | _ => ["mismatch:setup"]
+  end.
+
+Definition check_path (c : path_case) : list string := path_violations c ++ path_mismatches c.
